@@ -85,7 +85,9 @@ def run (inp obs : List String) : Verdict :=
       if kind = "ufo" && ver = "3" then
         match parseFont (inp.filter isFontTok) pre, parseFont l1toks pre with
         | some want, some got =>
-          (specFont want got pre pre true).map fun r => "accepted-altered:" ++ clean r
+          ((specFont want got pre pre true) ++
+            (if want.creator = got.creator && want.minor = got.minor then [] else ["metainfo"])).map
+            fun r => "accepted-altered:" ++ clean r
         | _, _ => ["accepted-altered:shape"]
       else []
     let objKey := match parseFont l1toks pre with
